@@ -81,6 +81,8 @@ def setup_state(eng: Engine, contract: Contract, fi):
             st.heap[(other.oid, back)] = target
             st.old_heap[(other.oid, back)] = target
     st.ghost["$args"] = args
+    for ax in getattr(eng.reg, "axioms", ()):      # definitional axioms of spec functions (listed as assumptions by the module)
+        st.assume(ax)
     for gname, gty in (getattr(contract, "ghost_init", None) or {}).items():
         st.ghost[gname] = mk_fresh(gty, gname.replace(":", "_"))
         st.ghost["$" + gname.split(":")[-1] + "0"] = st.ghost[gname]
@@ -155,6 +157,18 @@ def check_exit(eng: Engine, contract: Contract, kind, st: State, val, self_ref, 
             s2.assume(w)
             eng.oblige(s2, f(Ctx(eng, s2, self_ref, args, result=result, exc=exc, extra=post_extra)), f"{label}:{c.name}:{name}",
                        "ensures" if kind != RAISE else "raises")
+        if kind == RAISE:
+            for fname, ff in c.exc_fields.items():
+                s2 = st.fork()
+                s2.assume(w)
+                got = exc.fields.get(fname)
+                want = ff(Ctx(eng, s2, self_ref, args, result=result, exc=exc, extra=post_extra))
+                from .ops import coerce
+                try:
+                    goal = z3.BoolVal(False) if got is None else coerce(got, want.ty).term == want.term
+                except Exception:
+                    goal = z3.BoolVal(False)
+                eng.oblige(s2, goal, f"{label}:{c.name}:exception-attribute:{fname}", "raises")
     # frame: heap cells outside the declared frame are unchanged
     for (oid, fld), cur in st.heap.items():
         old = st.old_heap.get((oid, fld))
